@@ -1,15 +1,279 @@
 import LlgoVerif.Lemmas.HMap
 /-!
-# C06 — maps behave as finite maps (work in progress: see design/C06.md for the stage table)
+# C06 — maps behave as finite maps under every operation history and key type
+
+Property theorems only.  Model: `LlgoVerif/Model/HMap.lean` (bucket-level transcription of llgo's `map.go`),
+specification: `LlgoVerif/Spec/AssocList.lean`, lemmas and the invariant `WF`: `LlgoVerif/Lemmas/HMap.lean`.
+
+`abs : HMap K V → AList K V` reads a table as the association list of its filled cells; two association lists
+denote the same map when one is a permutation of the other (`List.Perm`).  `Inv o h` = `WF o h`, or the bucket
+array is not allocated yet.  `HashOK o` = what the runtime assumes about the hasher and `==` (no reflexivity:
+NaN keys are covered).
+
+Stages of DESIGN.md §4 C06: (1) no growth, (2) growth incl. same-size growth, (3) delete with the emptyRest
+back-propagation, (4) clear are PROVED here for every table state and every history; (5) iteration is stated
+(`IterationSpec`) and is FALSE for the code as it is (`iteration_counterexample`).
 -/
 namespace LlgoVerif.HMap
 open LlgoVerif.AssocList
 variable {K V : Type} [Inhabited K] [Inhabited V]
 
-/-- one pass of `mapassign` on a chain whose old bucket is evacuated refines `insert` -/
-theorem assign_core_refines {o : Ops K} (ho : HashOK o) {h : HMap K V} (hw : WF o h) {hash : UInt64} {k : K} {v : V}
-    (hhome : Home h (bucketIdx hash h.B)) (hhash : o.eq k k = true → hash = o.hash h.hash0 k)
-    (hunh : o.unhashable k = false) : AssignPost o h k v (assignCore o h hash k v) :=
-  assignCore_spec ho hw hhome hhash hunh
+/-! ## single operations -/
+
+/-- `make(map[K]V, hint)` is the empty map and satisfies the invariant. -/
+theorem makemap_refines (o : Ops K) (hint : Nat) (r : Rand) :
+    Inv o (makemap hint r : HMap K V) ∧ abs (makemap hint r : HMap K V) = [] :=
+  makemap_spec o hint r
+
+/-- `m[k]` / `v, ok := m[k]` return what the association list holds for `k`; the table is unchanged.
+    Stages 1+2: also while the map is growing (old buckets not yet evacuated are searched). -/
+theorem mapaccess_refines {o : Ops K} (ho : HashOK o) {h : HMap K V} (hi : Inv o h) (k : K) :
+    (∀ r h', mapaccess o h k = .ok (r, h') →
+      r.map (·.val) = lookup o.eq k (abs h) ∧ Inv o h' ∧ abs h' = abs h) ∧
+    (∀ e, mapaccess o h k = .error e → e = .unhashable ∧ o.unhashable k = true) :=
+  mapaccess_spec ho hi k
+
+/-- `m[k] = v` is `insert`, for every table state: in place, into a free cell, into a new overflow bucket, and
+    across `hashGrow` (doubling and same-size), `growWork`, `evacuate`.  The only error besides the unhashable-key
+    panic is the model's bound on the number of `goto again` passes (`Err.loop`). -/
+theorem mapassign_refines {o : Ops K} (ho : HashOK o) {h : HMap K V} (hi : Inv o h) (k : K) (v : V) :
+    (∀ h', mapassign o h k v = .ok h' →
+      WF o h' ∧ (abs h').Perm (insert o.eq o.needKeyUpdate k v (abs h))) ∧
+    (∀ e, mapassign o h k v = .error e → (e = .unhashable ∧ o.unhashable k = true) ∨ e = .loop) :=
+  mapassign_spec ho hi k v
+
+/-- `delete(m, k)` is `erase` (stage 3: including the emptyRest back-propagation, and during growth). -/
+theorem mapdelete_refines {o : Ops K} (ho : HashOK o) {h : HMap K V} (hi : Inv o h) (k : K) :
+    (∀ h', mapdelete o h k = .ok h' → Inv o h' ∧ (abs h').Perm (erase o.eq k (abs h))) ∧
+    (∀ e, mapdelete o h k = .error e → e = .unhashable ∧ o.unhashable k = true) :=
+  mapdelete_spec ho hi k
+
+/-- `clear(m)` is the empty map (stage 4; with a `memclr` that clears, which is what `map.go` assumes). -/
+theorem mapclear_refines {o : Ops K} {h : HMap K V} (hi : Inv o h) :
+    Inv o (mapclear h) ∧ abs (mapclear h) = [] :=
+  mapclear_spec hi
+
+/-- `len(m)` is the number of entries. -/
+theorem maplen_refines {o : Ops K} {h : HMap K V} (hi : Inv o h) : h.count = len (abs h) :=
+  inv_count hi
+
+/-- one evacuation step moves entries without losing or duplicating any (stage 2) -/
+theorem evacuate_preserves {o : Ops K} (ho : HashOK o) {h : HMap K V} (hw : WF o h) {j : Nat}
+    (hjs : ∀ oa, h.old = some oa → j < oa.size) :
+    ∃ h', evacuate o h j = .ok h' ∧ WF o h' ∧ (abs h').Perm (abs h) :=
+  let ⟨h', e, p⟩ := evacuate_spec ho hw hjs
+  ⟨h', e, p.wf, p.perm⟩
+
+/-- starting a growth changes nothing observable (stage 2) -/
+theorem hashGrow_preserves {o : Ops K} {h : HMap K V} (hw : WF o h) (hold : h.old = none) :
+    WF o (hashGrow h) ∧ abs (hashGrow h) = abs h :=
+  let ⟨w, a, _⟩ := hashGrow_spec hw hold
+  ⟨w, a⟩
+
+/-! ## all histories -/
+
+inductive Op (K V : Type) where
+  | assign (k : K) (v : V)
+  | access (k : K)
+  | delete (k : K)
+  | clear
+  | len
+
+inductive Obs (V : Type) where
+  | done
+  | val (v : Option V)      -- `none`: zero value, ok = false
+  | len (n : Nat)
+  | panic                   -- "hash of unhashable type"
+
+/-- one operation on the table; a panic leaves the table as it was -/
+def stepModel (o : Ops K) (h : HMap K V) : Op K V → Except Err (Obs V × HMap K V)
+  | .assign k v =>
+    match mapassign o h k v with
+    | .ok h' => .ok (.done, h')
+    | .error .unhashable => .ok (.panic, h)
+    | .error e => .error e
+  | .access k =>
+    match mapaccess o h k with
+    | .ok (r, h') => .ok (.val (r.map (·.val)), h')
+    | .error .unhashable => .ok (.panic, h)
+    | .error e => .error e
+  | .delete k =>
+    match mapdelete o h k with
+    | .ok h' => .ok (.done, h')
+    | .error .unhashable => .ok (.panic, h)
+    | .error e => .error e
+  | .clear => .ok (.done, mapclear h)
+  | .len => .ok (.len h.count, h)
+
+def runModel (o : Ops K) : HMap K V → List (Op K V) → Except Err (List (Obs V) × HMap K V)
+  | h, [] => .ok ([], h)
+  | h, op :: ops =>
+    match stepModel o h op with
+    | .error e => .error e
+    | .ok (ob, h') =>
+      match runModel o h' ops with
+      | .error e => .error e
+      | .ok (obs, h'') => .ok (ob :: obs, h'')
+
+/-- the same operation on the specification -/
+def stepSpec (o : Ops K) (m : AList K V) : Op K V → Obs V × AList K V
+  | .assign k v => if o.unhashable k then (.panic, m) else (.done, insert o.eq o.needKeyUpdate k v m)
+  | .access k => if o.unhashable k then (.panic, m) else (.val (lookup o.eq k m), m)
+  | .delete k => if o.unhashable k then (.panic, m) else (.done, erase o.eq k m)
+  | .clear => (.done, [])
+  | .len => (.len (len m), m)
+
+def runSpec (o : Ops K) : AList K V → List (Op K V) → List (Obs V) × AList K V
+  | m, [] => ([], m)
+  | m, op :: ops =>
+    let (ob, m') := stepSpec o m op
+    let (obs, m'') := runSpec o m' ops
+    (ob :: obs, m'')
+
+/-- a key type whose hasher cannot panic has no unhashable keys (only interface-holding key types do) -/
+def PanicOK (o : Ops K) : Prop := o.hashMightPanic = false → ∀ k, o.unhashable k = false
+
+theorem step_refines {o : Ops K} (ho : HashOK o) (hp : PanicOK o) {h : HMap K V} (hi : Inv o h)
+    {m : AList K V} (hm : (abs h).Perm m) (op : Op K V) :
+    (∀ ob h', stepModel o h op = .ok (ob, h') →
+      ob = (stepSpec o m op).1 ∧ Inv o h' ∧ (abs h').Perm (stepSpec o m op).2) ∧
+    (∀ e, stepModel o h op = .error e → e = .loop) := by
+  have hnd := inv_nodup hi
+  cases op with
+  | assign k v =>
+    obtain ⟨a1, a2⟩ := mapassign_spec ho hi k v
+    simp only [stepModel, stepSpec]
+    cases hr : mapassign o h k v with
+    | ok h' =>
+      obtain ⟨w, p⟩ := a1 h' hr
+      have hu : o.unhashable k = false := by
+        cases hu : o.unhashable k with
+        | false => rfl
+        | true => simp [mapassign, hashKey, hu, bind, Except.bind] at hr
+      simp only [hu, Bool.false_eq_true, if_false]
+      refine ⟨fun ob h'' e => ?_, (fun e he => by cases he)⟩
+      cases e
+      exact ⟨rfl, Or.inl w, p.trans (insert_perm ho.eqok hm hnd)⟩
+    | error e =>
+      rcases a2 e hr with ⟨rfl, hu⟩ | rfl
+      · simp only [hu, if_true]
+        refine ⟨fun ob h'' e => ?_, (fun e he => by cases he)⟩
+        cases e
+        exact ⟨rfl, hi, hm⟩
+      · exact ⟨(fun ob h'' e => by cases e), (fun e he => by cases he; rfl)⟩
+  | access k =>
+    obtain ⟨a1, a2⟩ := mapaccess_spec ho hi k
+    simp only [stepModel, stepSpec]
+    cases hr : mapaccess o h k with
+    | ok p =>
+      obtain ⟨r, h'⟩ := p
+      obtain ⟨e1, e2, e3⟩ := a1 r h' hr
+      have hu : o.unhashable k = false := by
+        cases hu : o.unhashable k with
+        | false => rfl
+        | true =>
+          exfalso
+          by_cases hmp : o.hashMightPanic = false
+          · rw [hp hmp k] at hu; cases hu
+          · have hmp' : o.hashMightPanic = true := by simpa using hmp
+            unfold mapaccess at hr
+            simp only [hmp', if_true, hashKey, hu, bind, Except.bind] at hr
+            split at hr <;> cases hr
+      simp only [hu, Bool.false_eq_true, if_false]
+      refine ⟨fun ob h'' e => ?_, (fun e he => by cases he)⟩
+      cases e
+      refine ⟨?_, e2, by rw [e3]; exact hm⟩
+      rw [e1, lookup_perm ho.eqok hm hnd]
+    | error e =>
+      obtain ⟨rfl, hu⟩ := a2 e hr
+      simp only [hu, if_true]
+      refine ⟨fun ob h'' e => ?_, (fun e he => by cases he)⟩
+      cases e
+      exact ⟨rfl, hi, hm⟩
+  | delete k =>
+    obtain ⟨a1, a2⟩ := mapdelete_spec ho hi k
+    simp only [stepModel, stepSpec]
+    cases hr : mapdelete o h k with
+    | ok h' =>
+      obtain ⟨w, p⟩ := a1 h' hr
+      have hu : o.unhashable k = false := by
+        cases hu : o.unhashable k with
+        | false => rfl
+        | true =>
+          exfalso
+          by_cases hmp : o.hashMightPanic = false
+          · rw [hp hmp k] at hu; cases hu
+          · have hmp' : o.hashMightPanic = true := by simpa using hmp
+            unfold mapdelete at hr
+            simp only [hmp', if_true, hashKey, hu, bind, Except.bind] at hr
+            split at hr <;> cases hr
+      simp only [hu, Bool.false_eq_true, if_false]
+      refine ⟨fun ob h'' e => ?_, (fun e he => by cases he)⟩
+      cases e
+      exact ⟨rfl, w, p.trans (erase_perm ho.eqok hm hnd)⟩
+    | error e =>
+      obtain ⟨rfl, hu⟩ := a2 e hr
+      simp only [hu, if_true]
+      refine ⟨fun ob h'' e => ?_, (fun e he => by cases he)⟩
+      cases e
+      exact ⟨rfl, hi, hm⟩
+  | clear =>
+    obtain ⟨c1, c2⟩ := mapclear_spec hi
+    simp only [stepModel, stepSpec]
+    refine ⟨fun ob h'' e => ?_, (fun e he => by cases he)⟩
+    cases e
+    exact ⟨rfl, c1, by rw [c2]⟩
+  | len =>
+    simp only [stepModel, stepSpec]
+    refine ⟨fun ob h'' e => ?_, (fun e he => by cases he)⟩
+    cases e
+    refine ⟨?_, hi, hm⟩
+    rw [inv_count hi, AssocList.len, hm.length_eq]
+
+/-- **Refinement for all histories.**  From any table that satisfies the invariant and stands for `m`, every
+    sequence of assign / access / delete / clear / len — of any length, through every growth, same-size growth
+    and overflow bucket — produces exactly the observations of the association list (lookups return the most
+    recently stored value or "absent", `len` is the number of entries, unhashable keys panic and change
+    nothing), the invariant holds afterwards and the table stands for the specification's final state. -/
+theorem history_refines {o : Ops K} (ho : HashOK o) (hp : PanicOK o) (ops : List (Op K V)) :
+    ∀ (h : HMap K V) (m : AList K V), Inv o h → (abs h).Perm m →
+    (∀ obs h', runModel o h ops = .ok (obs, h') →
+      obs = (runSpec o m ops).1 ∧ Inv o h' ∧ (abs h').Perm (runSpec o m ops).2) ∧
+    (∀ e, runModel o h ops = .error e → e = .loop) := by
+  induction ops with
+  | nil =>
+    intro h m hi hm
+    refine ⟨fun obs h' e => ?_, (fun e he => by cases he)⟩
+    cases e
+    exact ⟨rfl, hi, hm⟩
+  | cons op ops ih =>
+    intro h m hi hm
+    obtain ⟨s1, s2⟩ := step_refines ho hp hi hm op
+    simp only [runModel, runSpec]
+    cases hs : stepModel o h op with
+    | error e =>
+      exact ⟨(fun obs h' e' => by cases e'), (fun e' he' => by cases he'; exact s2 e hs)⟩
+    | ok p =>
+      obtain ⟨ob, h1⟩ := p
+      obtain ⟨e1, i1, p1⟩ := s1 ob h1 hs
+      obtain ⟨r1, r2⟩ := ih h1 (stepSpec o m op).2 i1 p1
+      simp only
+      cases hr : runModel o h1 ops with
+      | error e => exact ⟨(fun obs h' e' => by cases e'), (fun e' he' => by cases he'; exact r2 e hr)⟩
+      | ok q =>
+        obtain ⟨obs, h2⟩ := q
+        obtain ⟨f1, f2, f3⟩ := r1 obs h2 hr
+        refine ⟨fun obs' h' e' => ?_, (fun e' he' => by cases he')⟩
+        cases e'
+        exact ⟨by rw [e1, f1], f2, f3⟩
+
+/-- the history theorem for a map created by `make` -/
+theorem history_refines_from_make {o : Ops K} (ho : HashOK o) (hp : PanicOK o) (hint : Nat) (r : Rand)
+    (ops : List (Op K V)) :
+    (∀ obs h', runModel o (makemap hint r : HMap K V) ops = .ok (obs, h') →
+      obs = (runSpec o ([] : AList K V) ops).1 ∧ Inv o h' ∧ (abs h').Perm (runSpec o ([] : AList K V) ops).2) ∧
+    (∀ e, runModel o (makemap hint r : HMap K V) ops = .error e → e = .loop) := by
+  obtain ⟨i, a⟩ := makemap_spec (V := V) o hint r
+  exact history_refines ho hp ops _ [] i (by rw [a])
 
 end LlgoVerif.HMap
